@@ -8,7 +8,7 @@ from spec import step_model as M
 PROPERTY = "C19"
 BOUNDS = {
     "quick": "the 4 adjacent ordered pairs (1.4,1.5), (1.5,2.0), (2.0,2.1), (2.1,2.2) - equality is transitive and the stated restrictions are nested, so they imply the other 6 pairs, which the thorough tier runs explicitly: the same pre-state (0..1 node, id sym [10,99], sleeping/reboot symbolic, 0..1 child, 0..1 stored value, 0..1 parked command for a sleeping node, outstanding-request marker symbolic) is built in two real gateways and the same symbolic event is applied to both: received line (command per partition; internal type sym over the OLDER version's table; set/req/presentation type sym [0,9]; payload symbolic |p|<=1 or class list) or a send call (set / internal, buffering flag symbolic); outcome, error attributes, writes, registry and buffers must be equal. Exemptions exactly as stated: heartbeat response between {2.0,2.1} and 2.2; 1.x vs 2.x only with known node/child and without gateway-ready",
-    "thorough": "all 10 ordered pairs, ids sym [0,255], 0..2 nodes, types sym [0,40]",
+    "thorough": "all 10 ordered pairs with the quick dimensions, plus the 4 adjacent pairs with ids sym [0,255] (every digit class)",
 }
 REALISED = ["internal type numbers inside the older table are one path per value"]
 STUBS = ["RecTransport", "protocol_14.time -> fixed clock", "symbolic maps", "__repr__ -> constant"]
@@ -22,21 +22,28 @@ PAIRS = [(a, b) for i, a in enumerate(VERSIONS) for b in VERSIONS[i + 1:]]
 def partitions(tier):
     q = tier == "quick"
     parts = []
-    ids = {"idlo": 10 if q else 0, "idhi": 99 if q else 255, "tvhi": 9 if q else 40, "maxnodes": 1 if q else 2, "maxch": 1,
-           "sym_reboot": True, "sym_sleep": True}
+    base = {"idlo": 10, "idhi": 99, "tvhi": 9, "maxnodes": 1, "maxch": 1, "sym_reboot": True, "sym_sleep": True}
+    wide = dict(base, idlo=0, idhi=255)  # thorough, adjacent pairs: every digit class of the ids
+    todo = []
     for old, new in PAIRS:
-        if q and VERSIONS.index(new) != VERSIONS.index(old) + 1:
+        adjacent = VERSIONS.index(new) == VERSIONS.index(old) + 1
+        if q and not adjacent:
             continue  # equality is transitive and the stated restrictions are nested: adjacent pairs imply the rest; thorough runs all 10
+        todo.append((old, new, base, ""))
+        if not q and adjacent:
+            todo.append((old, new, wide, "A"))
+    for old, new, ids, tag in todo:
+        new_name = new + tag
         for cmd in range(5):
             if cmd == 3:
                 top = M.INTERNAL_MAX[old]
                 for lo_t in range(0, top + 1, 4):
-                    parts.append(dict(ids, name="recv-%s-%s-cmd3-t%d" % (old, new, lo_t), fn="sym_recv", old=old, new=new, cmd=3,
+                    parts.append(dict(ids, name="recv-%s-%s-cmd3-t%d" % (old, new_name, lo_t), fn="sym_recv", old=old, new=new, cmd=3,
                                       tlo=lo_t, thi=min(top, lo_t + 3), maxch=0, values=False, sym_reboot=False, budget=600 if q else 3000, cost=5))
                 continue
-            parts.append(dict(ids, name="recv-%s-%s-cmd%d" % (old, new, cmd), fn="sym_recv", old=old, new=new, cmd=cmd,
+            parts.append(dict(ids, name="recv-%s-%s-cmd%d" % (old, new_name, cmd), fn="sym_recv", old=old, new=new, cmd=cmd,
                               sym_reboot=(cmd == 1), sym_sleep=False, noparked=True, budget=600 if q else 3000, cost=3))
-        parts.append(dict(ids, name="send-%s-%s" % (old, new), fn="sym_send", old=old, new=new, budget=500 if q else 2000, cost=3))
+        parts.append(dict(ids, name="send-%s-%s" % (old, new_name), fn="sym_send", old=old, new=new, budget=500 if q else 2000, cost=3))
     return parts
 
 
